@@ -5,12 +5,13 @@
 (* token list) plus a flag set; one event = one run of the executable,      *)
 (* its standard output tokenised into answer lines.                         *)
 (*                                                                          *)
-(* Output grammar (CLI.tla): lines starting with "c" and lines the grammar  *)
-(* does not know are ignored; what is judged is the truth of the answer     *)
+(* What a run must do: CLI!Expect(suffix, file state, flag set).  Output:    *)
+(* lines starting with "c" and lines the grammar does not know are          *)
+(* ignored; what is judged is the truth of the answer                       *)
 (* lines:  s <verdict>,  v <model>,  o <cost>,  the bare model count,       *)
 (* certificate clauses, the printed MUS, the "name: bool" lines of .bf.     *)
 (***************************************************************************)
-EXTENDS BFParse, TLC, Json, IOUtils
+EXTENDS BFParse, CLI, TLC, Json, IOUtils
 
 Cases == ndJsonDeserialize(IOEnv.VERIF_TRACE)
 OutFile == IOEnv.VERIF_OUT
@@ -104,16 +105,25 @@ ErrWhy(e) == IF e.exit = 0 THEN "cli-exit-zero-on-error"
              ELSE IF e.nS # 0 THEN "cli-answer-on-error" ELSE ""
 
 First(a, b2) == IF a # "" THEN a ELSE b2
+(* what the run must do is read off the decision table CLI.tla from the suffix of the file, the   *)
+(* state of the file and the SET of flags of the case; the content fields of the case (kind, cons, *)
+(* tokens) must describe a file of that suffix                                                     *)
+FlagSet == Range(Case.flags)
+X == Expect(Case.sfx, Case.st, FlagSet)
+CaseOK == /\ Case.sfx \in Suffixes /\ Case.st \in FileStates /\ FlagSet \subseteq AllFlags
+          /\ Case.kind = (IF X = "error" THEN "bad" ELSE Case.sfx)
 Why == CASE Ev.op = "skip"    -> ""
+         [] ~CaseOK           -> "harness:case-does-not-match-its-configuration"
          [] Ev.op = "crash"   -> "crash"
          [] Ev.op = "timeout" -> "timeout"
          [] Ev.op # "run"     -> "unknown-event"
-         [] Case.kind = "bad" -> ErrWhy(Ev)
-         [] Case.kind = "bf"  -> BfWhy(Ev)
-         [] Case.mode = "count" -> CountWhy(Ev)
-         [] Case.mode = "mus"   -> MusWhy(Ev)
-         [] Case.mode = "cert"  -> First(SolveWhy(Ev), CertWhy(Ev))
-         [] OTHER -> SolveWhy(Ev)
+         [] X = "error"       -> ErrWhy(Ev)
+         [] X = "unspecified" -> ""
+         [] X = "bf"          -> BfWhy(Ev)
+         [] X = "count"       -> CountWhy(Ev)
+         [] X = "mus"         -> MusWhy(Ev)
+         [] X = "decide"      -> First(SolveWhy(Ev), IF Certificate(Case.sfx, FlagSet) THEN CertWhy(Ev) ELSE "")
+         [] OTHER             -> SolveWhy(Ev)
 
 Init == /\ ci = 1 /\ ei = 1 /\ bad = <<>> /\ nev = 0
         /\ mods = IF Len(Cases) >= 1 THEN M0(Cases[1]) ELSE {}
